@@ -223,32 +223,53 @@ def _return_kind(ctx: Ctx, fi: FuncInfo, depth: int = 0) -> str:
     return k if n else "unknown"
 
 
+_CMP_OPS = {"__eq__": ("eq", ast.Eq), "__ne__": ("ne", ast.NotEq), "__lt__": ("lt", ast.Lt), "__le__": ("le", ast.LtE), "__gt__": ("gt", ast.Gt), "__ge__": ("ge", ast.GtE)}
+
+
+def _fn_env(ctx: Ctx, fi: FuncInfo) -> dict[str, str]:
+    env: dict[str, str] = {}
+    for a in fi.params:
+        if a.annotation is not None:
+            t = unparse(a.annotation).replace(" ", "")
+            env[a.arg] = "int" if t in ("int", "int|None", "bool") else ("float" if t == "float" else "unknown")
+    return env
+
+
 @rule("C06.R2")
 def exact_comparison_key(ctx: Ctx) -> None:
-    """The value _cmp hands to the comparison operator has abstract kind int (no float constant, no true division)."""
-    cmp_fn = ctx.repo.func(f"{DT}:_cmp")
+    """Every rich comparison of XmlDateTime / XmlTime applies the matching operator to keys of abstract kind int (no float constant, no true division)."""
+    from ..q import expand
+
     n = 0
-    for c in calls_in(cmp_fn.node):
-        if isinstance(c.func, ast.Name) and c.func.id == "op" and len(c.args) == 2:
-            for a in c.args:
-                n += 1
-                k = _kind(ctx, cmp_fn, a, cmp_fn.module, {})
-                ctx.ob(f"_cmp: operand {unparse(a)} is an exact integer key", k == "int", at=cmp_fn, node=a, construct=f"cmp operand {unparse(a)}",
-                       msg=f"abstract kind is {k}: a float key built from average month/year lengths cannot order instants exactly "
-                           "(2000-12-31T12:00 > 2001-01-01T00:00 evaluates True; values 1 ns apart compare equal)")
-    if n == 0:
-        raise AnalysisError("C06.R2: _cmp no longer calls op(x, y)")
-    # all six rich comparisons of both classes go through _cmp
     for cq in ("XmlDateTime", "XmlTime"):
         ci = ctx.repo.cls(f"{DT}:{cq}")
-        for name, opname in (("__eq__", "eq"), ("__ne__", "ne"), ("__lt__", "lt"), ("__le__", "le"), ("__gt__", "gt"), ("__ge__", "ge")):
-            m = ci.methods.get(name)
-            ok = False
-            if m is not None:
-                rets = [r for r in walk_no_nested(m.node) if isinstance(r, ast.Return)]
-                ok = len(rets) == 1 and unparse(rets[0].value).replace(" ", "") == f"_cmp(self,other,operator.{opname})"
-            ctx.ob(f"{cq}.{name} delegates to _cmp(self, other, operator.{opname})", ok, at=m or cmp_fn, construct=f"{cq}.{name}",
-                   msg="comparison does not use the matching operator on the timeline key")
+        for name, (opname, opcls) in _CMP_OPS.items():
+            m = ci.find_method(name)
+            if m is None:
+                ctx.ob(f"{cq}.{name} is defined", False, at=ctx.repo.func(f"{DT}:_timeline"), construct=f"{cq}.{name}", msg="comparison falls back to identity / dataclass field order")
+                continue
+            # comparison applications in the (helper-inlined) method: operator.<op>(x, y) through any alias, or x <op> y
+            apps: list[tuple[str, list[ast.expr]]] = []
+            for c in calls_in(m.node):
+                f = unparse(expand(m.node, c.func))
+                if f.startswith("operator.") and len(c.args) == 2:
+                    apps.append((f.split(".", 1)[1], list(c.args)))
+            for node in walk_no_nested(m.node):
+                if isinstance(node, ast.Compare) and len(node.ops) == 1 and type(node.ops[0]) in {o for _, o in _CMP_OPS.values()} and not isinstance(node.comparators[0], ast.Constant) \
+                        and not isinstance(node.left, ast.Constant) and not isinstance(node.ops[0], (ast.Eq, ast.NotEq)):
+                    apps.append((next(k for k, o in _CMP_OPS.values() if isinstance(node.ops[0], o)), [node.left, node.comparators[0]]))
+            ctx.ob(f"{cq}.{name} applies operator.{opname} (and no other ordering operator)", bool(apps) and {a for a, _ in apps} == {opname}, at=m, construct=f"{cq}.{name}",
+                   msg=f"comparison applies {sorted({a for a, _ in apps})}: it does not use the matching operator on the timeline key")
+            for _, operands in apps:
+                for a in operands:
+                    n += 1
+                    e = expand(m.node, a)
+                    k = _kind(ctx, m, e, m.module, _fn_env(ctx, m))
+                    ctx.ob(f"{cq}.{name}: operand {unparse(e)} is an exact integer key", k == "int", at=m, node=a, construct=f"{cq}.{name} operand {unparse(e)}",
+                           msg=f"abstract kind is {k}: a float key built from average month/year lengths cannot order instants exactly "
+                               "(2000-12-31T12:00 > 2001-01-01T00:00 evaluates True; values 1 ns apart compare equal)")
+    if n == 0:
+        raise AnalysisError("C06.R2: no comparison application found in the rich comparison methods")
 
 
 @rule("C06.R3")
